@@ -113,6 +113,8 @@ def _build():
     _reg(Schema("num_mr_1d", [M], [("mr", 0)], numeric=dict(num)), (1,), NUMS, quick=3, thorough=4)
     _reg(Schema("num_0d", [], [], numeric={"measures": ["mean"], "valid_counts": False, "with_count": True}),
          (1,), NUMS, quick=4, thorough=6)
+    _reg(Schema("num_0d_valid", [], [], numeric={"measures": ["mean"], "valid_counts": True}),
+         (1,), NUMS, quick=4, thorough=6)
     # numeric measures under EVERY dimension-type pairing (each measure class dispatches on
     # the type pair separately from the counts)
     for t, e in list(E.items()) + [("catdate", D)]:
@@ -147,6 +149,10 @@ def _build():
 
 
 _build()
+
+
+CUBE_LEVEL = {n: (len(sc.dims) >= 1 and all(r in ("cat", "enum") for r, _ in sc.dims)
+                 and not (sc.numeric and sc.numeric.get("numarr"))) for n, sc in SCHEMAS.items()}
 
 
 def spaces(tier):
@@ -243,7 +249,13 @@ def check(space, state):
             # 0-D: mean of everybody with a valid numeric answer, unweighted count = N
             exp_mean = _numeric_expect(data, "mean", False)
             cmp("nub", "means", part.means, np.array(exp_mean), pidx)
-            cmp("nub", "unweighted_count", part.unweighted_count, len(data), pidx)
+            # the unweighted count is the valid count when the response carries one, else N
+            cmp("nub", "unweighted_count", part.unweighted_count,
+                _numeric_expect(data, "valid_unweighted", False) if has_valid else len(data), pidx)
+            cmp("nub", "is_empty", part.is_empty,
+                (_numeric_expect(data, "valid_unweighted", False) if has_valid else len(data)) == 0, pidx)
+            cmp("cube", "unweighted_counts", cube.unweighted_counts,
+                _numeric_expect(data, "valid_unweighted", False) if has_valid else len(data), pidx)
             out_parts.append(arr_bytes(np.array(part.means)))
             nontrivial = nontrivial or len(data) > 0
             continue
@@ -323,4 +335,16 @@ def check(space, state):
         out_parts.append(arr_bytes(part.counts, part.unweighted_counts))
         nontrivial = nontrivial or any(x > 0 for row in exp_u for x in row)
 
+    # ---- cube level (all dimensions categorical-like: the cube arrays are the stacked partitions)
+    if CUBE_LEVEL.get(space) and not V:
+        ps = [p_ for p_ in parts]
+        stack_u = np.array([np.asarray(p_.unweighted_counts, dtype=float) for p_ in ps])
+        stack_w = np.array([np.asarray(p_.counts, dtype=float) for p_ in ps])
+        if len(ps) == 1:
+            stack_u, stack_w = stack_u[0], stack_w[0]
+        cmp("cube", "unweighted_counts", cube.unweighted_counts, stack_u.tolist(), 0)
+        cmp("cube", "counts", cube.counts, stack_w.tolist(), 0)
+        if numeric and "mean" in numeric["measures"]:
+            stack_m = np.array([np.asarray(p_.means, dtype=float) for p_ in ps])
+            cmp("cube", "means", cube.means, (stack_m[0] if len(ps) == 1 else stack_m).tolist(), 0)
     return Res(V, nontrivial, digest(space, *out_parts), asserted)
